@@ -93,11 +93,12 @@ def gen(rng, n):
         for bit, nme, width in ((1, 'base_data_offset', 8), (2, 'sample_description_index', 4), (8, 'default_sample_duration', 4),
                                 (0x10, 'default_sample_size', 4), (0x20, 'default_sample_flags', 4)):
             if tf_flags & bit:
-                v = 0 if bit == 1 else rng.randrange(2 ** (8 * width))
+                # (the default sample size decides how many payload bytes the mdat gets: keep it small)
+                v = 0 if bit == 1 else rng.randrange(1, 64) if bit == 0x10 else rng.randrange(2 ** (8 * width))
                 body += u(width, v)
                 exp_tfhd[nme] = v
         tfhd = full(b'tfhd', 0, tf_flags, body)
-        tr_flags = rng.choice([1, 5, 0x101, 0x201, 0x301, 0x401, 0x801, 0xf01, 0xf05, 0xa01, 0x305])
+        tr_flags = rng.choice([1, 5, 0x101, 0x201, 0x301, 0x401, 0x801, 0xf01, 0xb05, 0xa01, 0x305])   # 0x4 and 0x400 exclude each other (14496-12 8.8.8)
         cnt = rng.randint(1, 4)
         sizes = [rng.randrange(1, 40) for _ in range(cnt)]
         mfhd = full(b'mfhd', 0, 0, u(4, rng.randrange(2**32)))
